@@ -2,31 +2,55 @@
 (***************************************************************************)
 (* Trace validation for C04 / C05 (code -> spec): calls logged from the    *)
 (* real pymtl3 Bits class and helpers are checked against BitsObj.tla /    *)
-(* BV.tla.  One TLC run validates a batch of traces; every event action is *)
-(* total (a mismatch sets `err` to the failing clause) and Finish prints   *)
-(* one verdict  <<"V", tid, err, l>>  per trace.                           *)
+(* BV.tla, over a HEAP of live objects as in BitsHeap.tla.  One TLC run    *)
+(* validates a batch of traces; every event action is total (a mismatch    *)
+(* sets `err` to the failing clause) and Finish prints one verdict         *)
+(* <<"V", tid, err, l>>  per trace.                                        *)
 (*                                                                         *)
-(* Trace := [w0: width of the tracked object, built as Bits(w0) = 0,       *)
-(*           ev: Seq(Event)]   or   [init: state, ev] for the remainder of *)
-(*           a trace whose earlier part was already judged (the harness    *)
-(*           resumes after a reported violation from the observed state)   *)
-(* Event := [op, refl, args, out, post] (+ out2 for "divmod")              *)
-(*   args   operands ([k: "bits"|"int", neg, w, d]; [k: "self"] = the      *)
-(*          tracked object, whose value is taken from the SPEC state, not  *)
-(*          from the log), indices (<<>> = None, <<i>>), plain ints/bools  *)
+(* The harness keeps program variables 1, 2, ... each bound to its own     *)
+(* real object; variable 1 ("self") exists from the start.  hp[i] is the   *)
+(* specification's state of the object of variable i.                      *)
+(*                                                                         *)
+(* Trace := [w0: width of object 1, built as Bits(w0) = 0, ev: Seq(Event)] *)
+(*          or [init: state of object 1, ev] / [init_heap: Seq(state), ev] *)
+(*          for the remainder of a trace whose earlier part was already    *)
+(*          judged (the harness resumes after a reported violation from    *)
+(*          the observed states)                                           *)
+(* Event := [op, refl, args, out, post] (+ out2 for "divmod") and, in      *)
+(*          traces over several objects, rid / tgt / alias / heap          *)
+(*   args   operands ([k: "bits"|"int", neg, w, d] literals; [k: "self"] = *)
+(*          object 1, [k: "obj", id] = the object of variable id -- their  *)
+(*          values are taken from the SPEC state, never from the log),     *)
+(*          indices (<<>> = None, <<i>>), plain ints / bools               *)
 (*   out    logged outcome [k: "ok"|"int"|"bool"|"unit"|"err", neg, w, d]  *)
-(*   post   observed state of the tracked object after the call            *)
-(*          [w, d, nxt: [some, d]]; compared with the spec state after     *)
-(*          EVERY event (so pure operators must not modify their operands  *)
-(*          and a raising mutator must leave the object unchanged)         *)
-(* ops      binary add..ge (args x, y; refl: y op x, y an int), divmod     *)
-(*          (x // y and x % y together), invert int uint pyint index bool  *)
-(*          nbits clone, hash_eq, getbit (x, i), getslice (x, lo, hi,      *)
-(*          step), concat (x1 .. xn), zext sext trunc (x, n), reduce_*,    *)
-(*          clog2 (N); mutators new (w, v, trunc), assign, nbassign (v),   *)
-(*          flip, setbit (i, v), setslice (lo, hi, step, v).               *)
+(*   rid    (pure calls returning Bits, and "new") the variable that was   *)
+(*          bound to the returned object: 1 .. number of variables + 1;    *)
+(*          absent / 0: the result was dropped ("new": variable 1)         *)
+(*   alias  0, or the variable whose object IS (Python `is`) the returned  *)
+(*          object: a result must be a NEW object (clause                  *)
+(*          result-aliases-live-object)                                    *)
+(*   tgt    (mutators) the variable whose object is modified; default 1    *)
+(*   heap   observed states of the objects of ALL variables after the      *)
+(*          call; compared with the specification's heap after EVERY       *)
+(*          event: the object named by rid / tgt must hold the specified   *)
+(*          state (clause post-state-mismatch) and NO OTHER object may     *)
+(*          have changed (clause changed-another-object: pure operators    *)
+(*          must not modify their operands, a mutator must not modify any  *)
+(*          object but its own, a raising call must change nothing)        *)
+(*   post   observed state of object 1 (traces without `heap`: only this   *)
+(*          one is compared)                                               *)
+(* ops      binary add..ge (args x, y; refl: y op x, y an int; the flag    *)
+(*          ip = TRUE says the harness spelled it `x op= y`, which for     *)
+(*          Bits is the same pure operator), divmod (x // y and x % y      *)
+(*          together), invert int uint pyint index bool nbits clone        *)
+(*          deepcopy, hash_eq, getbit (x, i), getslice (x, lo, hi, step),  *)
+(*          concat (x1 .. xn), zext sext trunc (x, n), reduce_*, clog2     *)
+(*          (N); mutators new (w, v, trunc), assign, nbassign (v), flip,   *)
+(*          setbit (i, v), setslice (lo, hi, step, v).                     *)
 (* Clauses: unexpected-error, missing-error, wrong-result-type,            *)
-(*          wrong-result, post-state-mismatch, unknown-event.              *)
+(*          wrong-result, result-aliases-live-object, post-state-mismatch, *)
+(*          changed-another-object, unknown-event; bad-trace-* = the       *)
+(*          harness logged an ill-formed trace (machinery failure).        *)
 (***************************************************************************)
 EXTENDS Integers, Sequences, FiniteSets, TLC, Json, IOUtils
 
@@ -36,13 +60,22 @@ B == INSTANCE BV WITH LB <- 15
 Input  == JsonDeserialize(IOEnv.VERIF_INPUT)
 Traces == Input.traces
 
-VARIABLES tid, l, err, fin, st
-tvars == <<tid, l, err, fin, st>>
+VARIABLES tid, l, err, fin, hp
+tvars == <<tid, l, err, fin, hp>>
 
 T  == Traces[tid]
 Ev == T.ev[l]
 
-Opnd(i) == IF Ev.args[i].k = "self" THEN O!SelfOp(st) ELSE Ev.args[i]
+Has(f) == f \in DOMAIN Ev
+Tgt    == IF Has("tgt") THEN Ev.tgt ELSE 1
+Rid    == IF Has("rid") THEN Ev.rid ELSE 0
+Alias  == IF Has("alias") THEN Ev.alias ELSE 0
+st     == hp[Tgt]                                   \* the object a mutator acts on
+
+Opnd(i) == LET a == Ev.args[i]
+           IN  IF a.k = "self" THEN O!SelfOp(hp[1])
+               ELSE IF a.k = "obj" THEN O!SelfOp(hp[a.id])
+               ELSE a
 
 SameState(s, p) == /\ s.w = p.w /\ s.d = p.d /\ s.nxt.some = p.nxt.some
                    /\ (s.nxt.some => s.nxt.d = p.nxt.d)
@@ -62,64 +95,92 @@ NextOf(pairs, out)   == (CHOOSE p \in pairs : p[1].k = out.k)[2]
 
 Init == /\ tid \in 1..Len(Traces)
         /\ l = 1 /\ err = "ok" /\ fin = FALSE
-        /\ st = IF "init" \in DOMAIN Traces[tid] THEN Traces[tid].init
-                ELSE O!MkState(B!Zero(Traces[tid].w0))
+        /\ hp = IF "init_heap" \in DOMAIN Traces[tid] THEN Traces[tid].init_heap
+                ELSE IF "init" \in DOMAIN Traces[tid] THEN <<Traces[tid].init>>
+                ELSE <<O!MkState(B!Zero(Traces[tid].w0))>>
 
 Live    == ~fin /\ err = "ok" /\ l <= Len(T.ev)
-Fail(c) == err' = c /\ UNCHANGED <<tid, l, fin, st>>
+Fail(c) == err' = c /\ UNCHANGED <<tid, l, fin, hp>>
 
-\* common tail: the verdict v of the call, the spec's next state s2, then the observed post state
-Conclude(v, s2) ==
+\* variable r is (re)bound to a new object in state s
+Bind(h, r, s) == IF r = Len(h) + 1 THEN Append(h, s) ELSE [h EXCEPT ![r] = s]
+
+\* the observed objects against the specification's heap h2, of which only object ch (0: none) changed
+Mismatch(h2, ch) ==
+    IF Has("heap")
+    THEN IF Len(Ev.heap) # Len(h2) THEN "bad-trace-heap-size"
+         ELSE IF \E c \in 1..Len(h2) : c # ch /\ ~SameState(h2[c], Ev.heap[c]) THEN "changed-another-object"
+         ELSE IF ch # 0 /\ ~SameState(h2[ch], Ev.heap[ch]) THEN "post-state-mismatch"
+         ELSE "ok"
+    ELSE IF ~SameState(h2[1], Ev.post) THEN "post-state-mismatch" ELSE "ok"
+
+\* common tail: the verdict v of the call, the specification's next heap h2 (object ch changed)
+Conclude(v, h2, ch) ==
     IF v # "ok" THEN Fail(v)
-    ELSE IF ~SameState(s2, Ev.post) THEN Fail("post-state-mismatch")
-    ELSE st' = s2 /\ l' = l + 1 /\ UNCHANGED <<tid, err, fin>>
+    ELSE IF Alias # 0 THEN Fail("result-aliases-live-object")
+    ELSE LET m == Mismatch(h2, ch)
+         IN  IF m # "ok" THEN Fail(m)
+             ELSE hp' = h2 /\ l' = l + 1 /\ UNCHANGED <<tid, err, fin>>
+
+\* a pure call: nothing changes, except that variable rid is bound to the NEW object holding the result
+PureEv(outs) ==
+    LET v    == Judge(outs, Ev.out)
+        keep == Rid # 0 /\ Ev.out.k = "ok"
+    IN  IF Rid # 0 /\ (outs.any \/ Rid > Len(hp) + 1) THEN Fail("bad-trace-rid")
+        ELSE Conclude(v, IF v = "ok" /\ keep THEN Bind(hp, Rid, O!MkState(O!BVof(Ev.out))) ELSE hp,
+                      IF keep THEN Rid ELSE 0)
 
 BinEv ==
     /\ Live
     /\ Ev.op \in O!BinOps
-    /\ Conclude(Judge(O!BinOuts(Ev.op, Ev.refl, Opnd(1), Opnd(2)), Ev.out), st)
+    /\ PureEv(O!BinOuts(Ev.op, Ev.refl, Opnd(1), Opnd(2)))
 
 DivModEv ==
     /\ Live
     /\ Ev.op = "divmod"
-    /\ Conclude(IF O!DivModAdmits(Ev.refl, Opnd(1), Opnd(2), Ev.out, Ev.out2) THEN "ok" ELSE "wrong-result", st)
+    /\ Conclude(IF O!DivModAdmits(Ev.refl, Opnd(1), Opnd(2), Ev.out, Ev.out2) THEN "ok" ELSE "wrong-result", hp, 0)
 
 UnaryEv ==
     /\ Live
     /\ Ev.op \in O!UnaryOps \cup {"hash_eq"}
-    /\ Conclude(Judge(IF Ev.op = "hash_eq" THEN O!HashEqOuts(Opnd(1), Opnd(2)) ELSE O!UnOuts(Ev.op, Opnd(1)),
-                      Ev.out), st)
+    /\ PureEv(IF Ev.op = "hash_eq" THEN O!HashEqOuts(Opnd(1), Opnd(2)) ELSE O!UnOuts(Ev.op, Opnd(1)))
 
 ReadEv ==
     /\ Live
     /\ Ev.op \in {"getbit", "getslice"}
-    /\ Conclude(Judge(IF Ev.op = "getbit" THEN O!GetBitOuts(Opnd(1), Ev.args[2])
-                      ELSE O!GetSliceOuts(Opnd(1), Ev.args[2], Ev.args[3], Ev.args[4]), Ev.out), st)
+    /\ PureEv(IF Ev.op = "getbit" THEN O!GetBitOuts(Opnd(1), Ev.args[2])
+              ELSE O!GetSliceOuts(Opnd(1), Ev.args[2], Ev.args[3], Ev.args[4]))
 
 HelperEv ==
     /\ Live
     /\ Ev.op \in {"concat", "zext", "sext", "trunc", "reduce_and", "reduce_or", "reduce_xor"}
-    /\ Conclude(Judge(CASE Ev.op = "concat" -> O!ConcatOuts([i \in 1..Len(Ev.args) |-> Opnd(i)])
-                        [] Ev.op = "zext"   -> O!ZextOuts(Opnd(1), Ev.args[2])
-                        [] Ev.op = "sext"   -> O!SextOuts(Opnd(1), Ev.args[2])
-                        [] Ev.op = "trunc"  -> O!TruncOuts(Opnd(1), Ev.args[2])
-                        [] OTHER            -> O!RedOuts(Ev.op, Opnd(1)), Ev.out), st)
+    /\ PureEv(CASE Ev.op = "concat" -> O!ConcatOuts([i \in 1..Len(Ev.args) |-> Opnd(i)])
+                [] Ev.op = "zext"   -> O!ZextOuts(Opnd(1), Ev.args[2])
+                [] Ev.op = "sext"   -> O!SextOuts(Opnd(1), Ev.args[2])
+                [] Ev.op = "trunc"  -> O!TruncOuts(Opnd(1), Ev.args[2])
+                [] OTHER            -> O!RedOuts(Ev.op, Opnd(1)))
 
 Clog2Ev ==
     /\ Live
     /\ Ev.op = "clog2"
-    /\ Conclude(Judge(O!Clog2Outs(Ev.args[1]), Ev.out), st)
+    /\ PureEv(O!Clog2Outs(Ev.args[1]))
 
+\* the object of variable Tgt changes as the admitted pair with the logged outcome says
 MutEv(pairs) ==
     LET v == JudgeMut(pairs, Ev.out)
-    IN  Conclude(v, IF v = "ok" THEN NextOf(pairs, Ev.out) ELSE st)
+    IN  IF Tgt > Len(hp) THEN Fail("bad-trace-tgt")
+        ELSE Conclude(v, IF v = "ok" THEN [hp EXCEPT ![Tgt] = NextOf(pairs, Ev.out)] ELSE hp, Tgt)
 
+\* Bits(w, v, trunc): variable rid (default 1) is bound to the new object; a failed call binds nothing
 NewEv ==
     /\ Live
     /\ Ev.op = "new"
     /\ LET pairs == O!NewOuts(Ev.args[1], Opnd(2), Ev.args[3])
            v     == JudgeMut(pairs, Ev.out)
-       IN  Conclude(v, IF v = "ok" /\ Ev.out.k # "err" THEN NextOf(pairs, Ev.out) ELSE st)
+           r     == IF Rid # 0 THEN Rid ELSE 1
+           made  == v = "ok" /\ Ev.out.k # "err"
+       IN  IF r > Len(hp) + 1 THEN Fail("bad-trace-rid")
+           ELSE Conclude(v, IF made THEN Bind(hp, r, NextOf(pairs, Ev.out)) ELSE hp, IF made THEN r ELSE 0)
 
 AssignEv ==
     /\ Live
@@ -141,7 +202,7 @@ Other == /\ Live /\ Ev.op \notin Known /\ Fail("unknown-event")
 
 Finish == /\ ~fin /\ (err # "ok" \/ l > Len(T.ev))
           /\ PrintT(<<"V", tid, err, l>>)
-          /\ fin' = TRUE /\ UNCHANGED <<tid, l, err, st>>
+          /\ fin' = TRUE /\ UNCHANGED <<tid, l, err, hp>>
 
 Next == BinEv \/ DivModEv \/ UnaryEv \/ ReadEv \/ HelperEv \/ Clog2Ev \/ NewEv \/ AssignEv \/ SetEv \/ Other \/ Finish
 
